@@ -36,7 +36,7 @@ template<class S,class Tg> void c05_log(hx::Rec<S>& R){ COMMON
   check_vec_out<S,J>(R,"log",Xp.log().coeffs(),Ja,D);
 }
 template<class S,class Tg> void c05_exp(hx::Rec<S>& R){ COMMON
-  T t=Tg::maket(R,"t",0); Jac Ja; t.exp(Ja);
+  T t=MAKET(Tg,R,"t",0); Jac Ja; t.exp(Ja);
   TJ tp(seedv<S,J,D>(typename T::DataType(t.coeffs())));
   check_group_out<Tg,S,J>(R,"exp",tp.exp(),Ja,D);
 }
